@@ -1098,7 +1098,8 @@ pub fn scen_history(initial: &Model, ops: &[Op], setup: &Setup, out: &mut Out) {
 }
 
 /// see `mode_bigsearch`
-pub fn scen_bigsearch(m: &Model, setup: &Setup, k: usize, out: &mut Out) {
+/// `expected`: the known number of solutions when the enumeration runs to its end
+pub fn scen_bigsearch(m: &Model, setup: &Setup, k: usize, expected: Option<usize>, out: &mut Out) {
     let solver = Solver::with_options(setup.opts.to_solver_options());
     let mut built = build(solver, m, false, false, setup.style_seed);
     if built.failed_at.is_some() {
@@ -1110,6 +1111,7 @@ pub fn scen_bigsearch(m: &Model, setup: &Setup, k: usize, out: &mut Out) {
     term.cap = term.cap.min(60_000);
     let since = term.since.clone();
     let mut found = 0;
+    let mut finished = false;
     let mut seen: std::collections::BTreeSet<Vec<i32>> = Default::default();
     {
         let mut it = built.solver.get_solution_iterator(&mut brancher, &mut term);
@@ -1132,13 +1134,21 @@ pub fn scen_bigsearch(m: &Model, setup: &Setup, k: usize, out: &mut Out) {
                         break;
                     }
                 },
-                IteratedSolution::Finished | IteratedSolution::Unsatisfiable => break,
+                IteratedSolution::Finished | IteratedSolution::Unsatisfiable => {
+                    finished = true;
+                    break;
+                }
                 IteratedSolution::Unknown => {
                     // the poll cap of the harness: a long search, not an observation about the solver
                     out.meta("bigsearch: poll cap reached, case inconclusive");
                     break;
                 }
             }
+        }
+    }
+    if let (true, Some(e)) = (finished, expected) {
+        if found != e {
+            out.push(format!("bad bigsearch wrong-number-of-solutions expected={} found={}", e, found));
         }
     }
     out.push(format!("same bigsearch-solutions-found {} {}", found, found));
